@@ -702,6 +702,24 @@ def queries_after(f, label, n, ctx, held_roots, r):
     occurs when the netlist has no top instance or the top definition is outside the netlist, and a reference whose path is gone is the
     root of nothing.  States with a second netlist or with unjudged (cross-netlist) paths are skipped."""
     now = Now(ctx['netlists'])
+    # an oracle-free relation that holds in every state, also the ones not judged below: the occurrences of an instance are the
+    # references to it among all hierarchical instances of the netlist
+    try:
+        everything = list(sdn.get_hinstances(n, recursive=True))
+    except Exception:
+        everything = None
+    if everything is not None:
+        kids = [i for l in n.libraries for d in l.definitions for i in d.children if i is not n.top_instance]    # the root itself is not "below the top"
+        r.shuffle(kids)
+        for x in kids[:3]:
+            site = 'get_hinstances(instance)==filter(get_hinstances(netlist))'
+            res = f.guarded('C11.raises', site, lambda: list(sdn.get_hinstances(x)), edit=label)
+            if res is None:
+                continue
+            want = sorted(ids(oracles.href_seq(h)) for h in everything if h.item is x)
+            got = sorted(ids(oracles.href_seq(h)) for h in res)
+            f.check(want == got, 'C11.consistency', site, 'after %s: get_hinstances(netlist, recursive=True) holds %d references to the instance, '
+                    'get_hinstances(instance) returns %d' % (label, len(want), len(got)), edit=label)
     if len(ctx['netlists']) > 1 or any(now.ambiguous[k] for k in now.ambiguous):
         f.stats['queries_after_edit_skipped'] += 1
         return
